@@ -129,6 +129,7 @@ func engineReplay(p *Program, c *CexFile) (bool, string) {
 	}
 	e.replay = &ReplayInput{Model: m, Trail: c.Trail}
 	e.noCache = true
+	e.trace = os.Getenv("GOATSYM_TRACE") != ""
 	res := e.runHarness(c.Harness)
 	for _, v := range res.Violations {
 		if v.Sig == c.Violation.Sig {
